@@ -68,3 +68,143 @@ func vxH_C04_reopen() {
 	coll2.Close()
 	store2.Close()
 }
+
+func init() { vxRegister("vxH_C04_sessions", vxH_C04_sessions) }
+
+// vxH_C04_sessions: two sessions on the same directory, each followed by a
+// clean close and a reopen. A session executes batches of symbolic shape on
+// the top-level collection and a child collection (write, delete the child
+// together with a parent write, recreate it), the first session optionally
+// starts with a big round so that later rounds are compacted partially
+// under CompactionAllow. After every reopen the store's snapshot and the
+// collection equal the reference tree (parent, child, child existence), and
+// the directory still holds the data file.
+func vxH_C04_sessions() {
+	fs := vxNewFS()
+	so := vxStoreOptions(fs)
+	so.CompactionLevelMaxSegments = 1
+	so.CompactionLevelMultiplier = 2
+	so.CompactionPercentage = -1
+	po := StorePersistOptions{CompactionConcern: CompactionConcern(vxChoose(3))}
+	so.CollectionOptions.OnError = func(err error) {
+		vxAssert("no-persistence-error: "+err.Error(), false)
+	}
+	ref := vxNewNode()
+	names := []string{"a"}
+	none := map[string]bool{}
+	var K, J vxKey
+	K.n, J.n = 1, 1
+	K.b[0], J.b[0] = 'k', 'j'
+	kb, jb := vxKeyBytes(K), vxKeyBytes(J)
+	big := vxChoose(2) == 1
+	wrote := big
+	thorough := vxTier() == 1
+	for session := 0; session < 2; session++ {
+		store, coll, err := OpenStoreCollection(fs.dir, so, po)
+		vxAssert("open-ok", err == nil)
+		if session > 0 {
+			ss, serr := store.Snapshot()
+			vxAssert("store-snapshot-ok", serr == nil)
+			vxCheckTree("reopened-store", ss, ref, K, kb, names, none)
+			vxCheckTree("reopened-store2", ss, ref, J, jb, names, none)
+			ss.Close()
+			cs, cerr := coll.Snapshot()
+			vxAssert("coll-snapshot-ok", cerr == nil)
+			vxCheckTree("reopened-coll", cs, ref, K, kb, names, none)
+			cs.Close()
+		}
+		if session == 0 && big {
+			b, berr := coll.NewBatch(8, 64)
+			vxAssert("newbatch-ok", berr == nil)
+			var ents []vxEnt
+			for _, c := range []byte{'a', 'b', 'c', 'd'} {
+				var e vxEnt
+				e.op = OperationSet
+				e.k.n, e.k.b[0] = 1, c
+				e.v.n, e.v.b[0] = 1, vxU8()
+				ents = append(ents, e)
+			}
+			vxFillBatch(b, ents)
+			ref.layers = append(ref.layers, ents)
+			vxAssert("executebatch-ok", coll.ExecuteBatch(b, WriteOptions{}) == nil)
+			b.Close()
+			vxDrain(coll)
+		}
+		for n := 0; n < 2; n++ {
+			if !thorough && session == 0 && n > 0 {
+				break // quick: one batch in the first session
+			}
+			shape := vxChoose(4) // 0 stop, 1 parent write, 2 child write, 3 child delete + parent write
+			if shape == 0 {
+				break
+			}
+			b, berr := coll.NewBatch(4, 64)
+			vxAssert("newbatch-ok", berr == nil)
+			if shape == 1 || shape == 3 {
+				ents := vxFixedSet()
+				vxFillBatch(b, ents)
+				ref.layers = append(ref.layers, ents)
+			}
+			if shape == 2 {
+				cb, cerr := b.NewChildCollectionBatch("a", BatchOptions{TotalOps: 2, TotalKeyValBytes: 16})
+				vxAssert("childbatch-ok", cerr == nil)
+				var ents []vxEnt
+				if thorough {
+					ents = vxFixedEnt() // key k or j, Set or Del
+				} else {
+					// quick: key k in the first session, key j in the
+					// second, so that an entry of an earlier incarnation
+					// of the child cannot hide behind a newer write
+					ents = vxFixedSet()
+					if session == 1 {
+						ents[0].k.b[0] = 'j'
+					}
+					if vxChoose(2) == 1 {
+						ents[0].op = OperationDel
+						ents[0].v.n = 0
+					}
+				}
+				vxFillBatch(cb, ents)
+				if ref.kids["a"] == nil {
+					ref.kids["a"] = vxNewNode()
+				}
+				ref.kids["a"].layers = append(ref.kids["a"].layers, ents)
+			}
+			if shape == 3 {
+				vxAssert("delchild-ok", b.DelChildCollection("a") == nil)
+				delete(ref.kids, "a")
+			}
+			vxAssert("executebatch-ok", coll.ExecuteBatch(b, WriteOptions{}) == nil)
+			b.Close()
+			wrote = true
+			// the first session persists every batch as its own round;
+			// the second also lets batches share a round
+			if session == 0 || vxChoose(2) == 1 {
+				vxDrain(coll)
+			}
+		}
+		vxDrain(coll)
+		vxObserveU64("partial-compactions", store.totCompactionsPartial)
+		coll.Close()
+		store.Close()
+		vxQuiesce()
+		vxObserveInt("files-left", len(fs.names()))
+		if wrote {
+			vxAssert("data-file-kept-after-close", len(fs.names()) >= 1)
+		}
+	}
+	store, coll, err := OpenStoreCollection(fs.dir, so, po)
+	vxAssert("final-open-ok", err == nil)
+	ss, serr := store.Snapshot()
+	vxAssert("store-snapshot-ok", serr == nil)
+	vxCheckTree("final-store", ss, ref, K, kb, names, none)
+	vxCheckTree("final-store2", ss, ref, J, jb, names, none)
+	ss.Close()
+	cs, cerr := coll.Snapshot()
+	vxAssert("coll-snapshot-ok", cerr == nil)
+	vxCheckTree("final-coll", cs, ref, K, kb, names, none)
+	vxCheckTree("final-coll2", cs, ref, J, jb, names, none)
+	cs.Close()
+	coll.Close()
+	store.Close()
+}
